@@ -275,50 +275,56 @@ def mec_table(dag_rows):
 # ------------------------------------------------------------------------ reference algorithms (validated)
 
 def _meek_closure(rows):
-    """Close a PDAG under Meek's rules 1-4 (reference implementation on bitsets)."""
+    """Close a PDAG under Meek's rules 1-4 (reference implementation on bitsets).
+
+    For an undirected edge a - b (oriented a -> b when a rule fires):
+      R1  some c -> a with c not adjacent to b
+      R2  some c with a -> c -> b
+      R3  two non-adjacent c, d with a - c -> b and a - d -> b
+      R4  some d, c with a - d -> c -> b, a adjacent to c, d not adjacent to b
+    """
     p = len(rows)
     g = list(rows)
-
-    def directed(a, b):
-        return g[a] >> b & 1 and not g[b] >> a & 1
-
-    def undirected(a, b):
-        return g[a] >> b & 1 and g[b] >> a & 1
-
-    def adjacent(a, b):
-        return g[a] >> b & 1 or g[b] >> a & 1
-
     changed = True
     while changed:
         changed = False
+        t = [0] * p                                  # t[j] = nodes with a mark towards j
+        for i in range(p):
+            r = g[i]
+            j = 0
+            while r:
+                if r & 1:
+                    t[j] |= 1 << i
+                r >>= 1
+                j += 1
+        ch = [g[i] & ~t[i] for i in range(p)]        # children
+        pa = [t[i] & ~g[i] for i in range(p)]        # parents
+        un = [g[i] & t[i] for i in range(p)]         # undirected neighbours
+        ad = [g[i] | t[i] for i in range(p)]         # adjacent
         for a in range(p):
-            for b in range(p):
-                if a == b or not undirected(a, b):
-                    continue
+            for b in bits(un[a]):
                 orient = False
-                # R1: c -> a - b, c not adjacent b
-                for c in range(p):
-                    if c != a and c != b and directed(c, a) and not adjacent(c, b):
-                        orient = True
-                # R2: a -> c -> b
-                for c in range(p):
-                    if c != a and c != b and directed(a, c) and directed(c, b):
-                        orient = True
-                # R3: a - c -> b, a - d -> b, c,d non adjacent
-                for c in range(p):
-                    for d in range(c + 1, p):
-                        if len({a, b, c, d}) == 4 and undirected(a, c) and undirected(a, d) \
-                                and directed(c, b) and directed(d, b) and not adjacent(c, d):
-                            orient = True
-                # R4: a - d -> c -> b, a - c (or adjacent), d not adjacent b
-                for c in range(p):
-                    for d in range(p):
-                        if len({a, b, c, d}) == 4 and undirected(a, d) and directed(d, c) and directed(c, b) \
-                                and adjacent(a, c) and not adjacent(d, b):
-                            orient = True
+                if pa[a] & ~ad[b] & ~(1 << b):
+                    orient = True                                            # R1
+                elif ch[a] & pa[b]:
+                    orient = True                                            # R2
+                else:
+                    S = un[a] & pa[b]
+                    for c in bits(S):
+                        if S & ~ad[c] & ~(1 << c):
+                            orient = True                                    # R3
+                            break
+                    if not orient:
+                        for c in bits(pa[b] & ad[a]):
+                            if pa[c] & un[a] & ~ad[b] & ~(1 << b):
+                                orient = True                                # R4
+                                break
                 if orient:
                     g[b] &= ~(1 << a)
                     changed = True
+                    break
+            if changed:
+                break
     return tuple(g)
 
 
